@@ -15,7 +15,7 @@ OBLIGATIONS = {
             r"^\(Eq \(core::option::Option::Some \$T0/Some\.0/Primitive\.0/PrimitiveTy\.0\) \(zydeco_statics::builtin::BuiltinValueAtom::primitive \$T1/Atom\.0\)\)$"],
         "(Some(Abst(_)),Atom(_))": [
             r"^\(core::option::Option::<T>::is_some_and \(zydeco_statics::builtin::BuiltinValueAtom::capability_role \$T1/Atom\.0\) "
-            r"\(closure \(Eq " + W + r"\$T0/Some\.0/Abst\.0\) \(core::option::Option::Some \(zydeco_syntax::BuiltinRole::Type \$role\)\)\)\)\)$"],
+            r"\(closure \(Eq " + W + r"\$T0/Some\.0/Abst\.0\) \(core::option::Option::Some \(zydeco_syntax::BuiltinRole::Type \$c0\.0\)\)\)\)\)$"],
         "(Some(App(App(_,_))),Thunk(_))": [
             r"^\(And \(" + re.escape(B) + r"matches_constructor \$P0 \$T0/Some\.0/App\.0/App\.0 zydeco_statics::builtin::IntrinsicConstructor::Thunk\) "
             r"\(" + re.escape(B) + r"matches_computation \$P0 \$T0/Some\.0/App\.0/App\.1 \$T1/Thunk\.0\)\)$"],
@@ -25,7 +25,7 @@ OBLIGATIONS = {
             r"^\(Eq " + W + r"\$T0/Some\.0/Abst\.0\) \(core::option::Option::Some \(zydeco_syntax::BuiltinRole::Type zydeco_syntax::BuiltinTypeRole::OS\)\)\)$"],
         "(Some(Abst(_)),Bound(_))": [
             r"^\(core::option::Option::<T>::is_some_and \(.*::nth \(.*rev \(core::slice::<impl \[T\]>::iter \(\. \$P0 computation_binders\)\)\) \$T1/Bound\.0\) "
-            r"\(closure \(Eq \$expected \$T0/Some\.0/Abst\.0\)\)\)$"],
+            r"\(closure \(Eq \$c0\.0 \$T0/Some\.0/Abst\.0\)\)\)$"],
         "(Some(App(App(_,_))),Return(_))": [
             r"^\(And \(" + re.escape(B) + r"matches_constructor \$P0 \$T0/Some\.0/App\.0/App\.0 zydeco_statics::builtin::IntrinsicConstructor::Return\) "
             r"\(" + re.escape(B) + r"matches_value \$P0 \$T0/Some\.0/App\.0/App\.1 \$T1/Return\.0\)\)$"],
